@@ -1,23 +1,29 @@
 package stats
 
 import (
+	"sync"
 	"sync/atomic"
 
 	"github.com/internetarchive/Zeno/internal/pkg/verifhook"
 )
 
 type mean struct {
+	mu    sync.Mutex // count and sum change together
 	count uint64
 	sum   uint64
 }
 
 func (m *mean) add(value uint64) {
+	m.mu.Lock()
+	defer m.mu.Unlock()
 	atomic.AddUint64(&m.count, 1)
 	verifhook.At("stats.mean.add.mid", m)
 	atomic.AddUint64(&m.sum, value)
 }
 
 func (m *mean) get() float64 {
+	m.mu.Lock()
+	defer m.mu.Unlock()
 	count := atomic.LoadUint64(&m.count)
 	sum := atomic.LoadUint64(&m.sum)
 
@@ -29,6 +35,8 @@ func (m *mean) get() float64 {
 }
 
 func (m *mean) reset() {
+	m.mu.Lock()
+	defer m.mu.Unlock()
 	atomic.StoreUint64(&m.count, 0)
 	verifhook.At("stats.mean.reset.mid", m)
 	atomic.StoreUint64(&m.sum, 0)
